@@ -288,6 +288,17 @@ fn hand_cases() -> Vec<Case> {
         Case { target: "js".into(), file: vec![FileEntry { table: Some("js".into()), key: "abi".into(), val: V::S("spec".into()) }], cli: vec![raw("js.abi", "legacy", V::S("legacy".into()))], attrs: vec![] },
         Case { target: "js".into(), file: vec![], cli: vec![raw("js.abi", "spec", V::S("spec".into()))], attrs: vec![raw("js.abi", "\"legacy\"", V::S("legacy".into()))] },
         Case { target: "js".into(), file: vec![FileEntry { table: Some("js".into()), key: "abi".into(), val: V::S("legacy".into()) }], cli: vec![], attrs: vec![raw("js.abi", "\"spec\"", V::S("spec".into()))] },
+        // the language-scoped variant of the one key lowering itself reads (always tied on the bridge whose acceptance
+        // depends on it): scoped against shared in both directions, from each source, and another language's scope
+        Case { target: "kotlin".into(), file: vec![], cli: vec![raw("lib_name", "somelib", V::S("somelib".into())), raw("kotlin.domain", "dev.x", V::S("dev.x".into())), raw("unsafe_references_in_callbacks", "false", V::B(false)), raw("kotlin.unsafe_references_in_callbacks", "true", V::B(true))], attrs: vec![] },
+        Case { target: "kotlin".into(), file: vec![], cli: vec![raw("lib_name", "somelib", V::S("somelib".into())), raw("kotlin.domain", "dev.x", V::S("dev.x".into()))], attrs: vec![raw("unsafe_references_in_callbacks", "true", V::B(true)), raw("kotlin.unsafe_references_in_callbacks", "false", V::B(false))] },
+        Case { target: "kotlin".into(), file: vec![FileEntry { table: Some("kotlin".into()), key: "unsafe-references-in-callbacks".into(), val: V::B(true) }], cli: vec![raw("lib_name", "somelib", V::S("somelib".into())), raw("kotlin.domain", "dev.x", V::S("dev.x".into()))], attrs: vec![] },
+        Case { target: "nanobind".into(), file: vec![], cli: vec![raw("lib_name", "somelib", V::S("somelib".into())), raw("nanobind.unsafe_references_in_callbacks", "true", V::B(true))], attrs: vec![] },
+        Case { target: "nanobind".into(), file: vec![FileEntry { table: None, key: "unsafe-references-in-callbacks".into(), val: V::B(true) }], cli: vec![raw("lib_name", "somelib", V::S("somelib".into())), raw("kotlin.domain", "dev.x", V::S("dev.x".into()))], attrs: vec![raw("nanobind.unsafe_references_in_callbacks", "false", V::B(false))] },
+        Case { target: "py-nanobind".into(), file: vec![], cli: vec![raw("lib_name", "somelib", V::S("somelib".into())), raw("kotlin.domain", "dev.x", V::S("dev.x".into()))], attrs: vec![raw("nanobind.unsafe_references_in_callbacks", "true", V::B(true))] },
+        Case { target: "nanobind".into(), file: vec![], cli: vec![raw("lib_name", "somelib", V::S("somelib".into())), raw("kotlin.domain", "dev.x", V::S("dev.x".into())), raw("unsafe_references_in_callbacks", "true", V::B(true)), raw("kotlin.unsafe_references_in_callbacks", "false", V::B(false))], attrs: vec![] },
+        Case { target: "js".into(), file: vec![], cli: vec![raw("lib_name", "somelib", V::S("somelib".into())), raw("js.unsafe_references_in_callbacks", "true", V::B(true))], attrs: vec![raw("unsafe_references_in_callbacks", "false", V::B(false))] },
+        Case { target: "js".into(), file: vec![FileEntry { table: Some("js".into()), key: "unsafe-references-in-callbacks".into(), val: V::B(false) }], cli: vec![raw("lib_name", "somelib", V::S("somelib".into())), raw("kotlin.domain", "dev.x", V::S("dev.x".into())), raw("unsafe_references_in_callbacks", "true", V::B(true))], attrs: vec![] },
     ]
 }
 
@@ -414,7 +425,8 @@ pub fn main(args: &[String]) {
                 rep.oracle_runs += 1;
                 rep.count("cli-tie");
                 let cli: Vec<String> = c.cli.iter().map(|e| format!("{}={}", e.key, e.text)).collect();
-                let src = if tie_budget % 2 == 0 { c.source_rich() } else { c.source() };
+                let reads_urc = c.cli.iter().map(|e| &e.key).chain(c.attrs.iter().map(|e| &e.key)).any(|k| k.contains("unsafe_references")) || c.file.iter().any(|e| e.key.contains("unsafe"));
+                let src = if tie_budget % 2 == 0 || reads_urc { c.source_rich() } else { c.source() };
                 if let Some(d) = tool::cli_tie(&dir.join("tie"), &src, &c.target, Some(&c.toml_text()), &cli) {
                     rep.disagree(l, "cli-vs-in-process", &d.to_string(), "same verdict and byte-identical files");
                 }
